@@ -49,6 +49,8 @@ pub fn update_token_variables(tokenizer: &mut Tokinizer) {
    let mut update_tokens = true;
 
     while update_tokens {
+        #[cfg(feature = "verif")]
+        crate::verif::tick("update_token_variables");
         let mut found = false;
         let mut closest_variable = usize::max_value();
         let mut name = String::new();
@@ -68,6 +70,8 @@ pub fn update_token_variables(tokenizer: &mut Tokinizer) {
         }
 
         if found {
+            #[cfg(feature = "verif")]
+            let verif_active = crate::verif::active(&tokenizer.token_infos);
             let remove_start_index  = token_start_index + closest_variable;
             let remove_end_index    = remove_start_index + variable_size;
             let text_start_position = tokenizer.token_infos[remove_start_index].start;
@@ -94,6 +98,8 @@ pub fn update_token_variables(tokenizer: &mut Tokinizer) {
                 status: Cell::new(TokenInfoStatus::Active)
             }));
             update_tokens = true;
+            #[cfg(feature = "verif")]
+            crate::verif::rewrite("variable", &name, verif_active, &tokenizer.token_infos);
         }
     }
 }
